@@ -55,6 +55,11 @@ class EntPlain(Ent):          # undecorated subclass of a decorated class
     pass
 
 
+@dataclass(eq=False, repr=False)
+class EntSubSub(EntSub):      # grandchild (undecorated) of the decorated root
+    pass
+
+
 @symbol
 @dataclass(eq=False, repr=False)
 class EntV(Ent):              # VALUE equality (like the repository's own test classes): distinct objects can be ==
@@ -133,7 +138,7 @@ class Foreign:                # unrelated undecorated class
         return f"Foreign#{self.k}"
 
 
-CLASSES = {"Ent": Ent, "EntSub": EntSub, "EntPlain": EntPlain, "EntV": EntV, "Other": Other, "Foreign": Foreign, "Made": Made,
+CLASSES = {"Ent": Ent, "EntSub": EntSub, "EntSubSub": EntSubSub, "EntPlain": EntPlain, "EntV": EntV, "Other": Other, "Foreign": Foreign, "Made": Made,
            "Pair": Pair}
 
 
